@@ -167,12 +167,15 @@ def run(ctx):
         pm = "c3paths_%d" % os.getpid()
         psrc = ("import dds\nimport pathlib\nimport datetime\n\n"
                 "RAW = pathlib.Path('data/raw.csv')\nDOT = pathlib.Path('.')\nUP = pathlib.Path('../x/./y')\nABS = pathlib.Path('/abs/x.csv')\n"
-                "PURE = pathlib.PurePosixPath('rel/y')\nDAY = datetime.date(2021, 3, 1)\nTUP = (pathlib.Path('a/b'), 'c')\n\n"
-                + "".join("def g_%s():\n    return str(%s)\n\n" % (n.lower(), n) for n in ("RAW", "DOT", "UP", "ABS", "PURE", "DAY", "TUP"))
+                "PURE = pathlib.PurePosixPath('rel/y')\nDAY = datetime.date(2021, 3, 1)\nTUP = (pathlib.Path('a/b'), 'c')\n"
+                # ... sets, whose iteration order depends on the hash seed of the interpreter
+                "STOP = frozenset({'the', 'a', 'of', 'and', 'to', 'in'})\nNA = {'', 'NA', 'null', None, 'n/a'}\n\n"
+                + "".join("def g_%s():\n    return str(sorted(map(str, %s))) if isinstance(%s, (set, frozenset)) else str(%s)\n\n" % (n.lower(), n, n, n)
+                          for n in ("RAW", "DOT", "UP", "ABS", "PURE", "DAY", "TUP", "STOP", "NA"))
                 # ... and a function that imports a (non-accepted) helper module in its body: whether that module is already loaded in
                 # the interpreter when the analysis runs (it is not the first time) must not matter
                 + "def g_lazy():\n    import %s\n    return str(%s.VALUE)\n\n" % (pm + "_lazy", pm + "_lazy")
-                + "def f0():\n" + "".join("    dds.keep('/c03/%s', g_%s)\n" % (n.lower(), n.lower()) for n in ("RAW", "DOT", "UP", "ABS", "PURE", "DAY", "TUP", "LAZY"))
+                + "def f0():\n" + "".join("    dds.keep('/c03/%s', g_%s)\n" % (n.lower(), n.lower()) for n in ("RAW", "DOT", "UP", "ABS", "PURE", "DAY", "TUP", "STOP", "NA", "LAZY"))
                 + "    return 'ok'\n")
         for d in (base, moved):
             with open(os.path.join(d, pm + ".py"), "w") as fh:
